@@ -66,6 +66,10 @@ class EmptyBoom(Exception):
         return 0
 
 
+class EndOfStream(StopAsyncIteration):
+    """the application's own end marker (it carries a summary): given to finish() it is the finish reason like any other exception"""
+
+
 class ElemErr(Exception):
     """an exception instance used as an ordinary queue *element* (result-or-error queues): it must be delivered, never raised"""
 
@@ -197,7 +201,8 @@ class _Run:
                 r, kind = None, "end"
             elif op == "FX":
                 # every other time the given exception is a falsy one (an aggregate error that collected nothing)
-                r = Boom(len(self.events)) if len(self.events) % 2 else EmptyBoom(len(self.events))
+                # ... and every third time an end-of-stream marker of the application's own: a StopAsyncIteration subclass carrying a summary
+                r = EndOfStream(len(self.events)) if len(self.events) % 3 == 2 else (Boom(len(self.events)) if len(self.events) % 2 else EmptyBoom(len(self.events)))
                 if not r:
                     self.falsy_reason = True
                 kind = "exc"
